@@ -28,6 +28,10 @@ B. homogeneity in the loading `n ↦ k n`:
      8  `micro_tail_scale`, `hk_volume_adsorbed_scale`, `micro_tail_loading_scale`, `coverage_scale`
      9  `enthalpy_ols_pressure_unit`, `isosteric_enthalpy_pressure_unit`
 C. results in the isotherm's own units: `henry_constant_units`, `henry_constant_units_lsq`, `henry_constant_units_lsq_conv`
+   (hypothesis: the fit returns the MINIMISER).  `Props/C15/Optimiser.lean` shows that this hypothesis is needed and is what the code
+   lacks in the recorded findings S45-C15a / S46-C15b (iterative optimisers stopped by ABSOLUTE tolerances): `henryGrad_units`,
+   `henry_relative_stop_units`, `henry_abs_stop_small_units`, `henry_abs_stop_witness`, `fitSSE_scale`, `kernel_fit_homogeneous_lsq`,
+   `kernel_abs_ftol_small_scale`, `kernel_abs_ftol_witness`.
 D. non-vacuity examples.
 -/
 import PgVerif.Gen.CharR
